@@ -137,9 +137,12 @@ def session(part, rng, srv_holder, variant, known, nreq):
         rounds = 1 + rng.randint(1, 5)
         for rnd in range(rounds):
             if rnd > 0:
-                ch, new = c02gen.random_lsp_change(rng, cur)
-                if rng.random() < .1: ch = {"text": c02gen.hostile_text(rng)}; new = ch["text"]
-                log["changes"].append(ch); srv.change(uri, [ch]); cur = new
+                batch = []
+                for _b in range(rng.choice([1, 1, 2, 3])):     # several changes in one notification, each relative to its predecessor
+                    ch, new = c02gen.random_lsp_change(rng, cur)
+                    if rng.random() < .1: ch = {"text": c02gen.hostile_text(rng)}; new = ch["text"]
+                    batch.append(ch); cur = new
+                log["changes"].append(batch); srv.change(uri, batch)
             for pos in positions(rng, cur, max(1, nreq // rounds // 4)):
                 for method in rng.sample(POS_METHODS, rng.choice([2, 4, 10])):
                     p = params_for(method, uri, pos, rng); pending.append((srv.post(method, p), method, p, cur))
@@ -269,7 +272,7 @@ def replay(ctx, sc):
         srv = Server(server_bin("rel"))
         try:
             srv.open(sc["uri"], sc["text"]); cur = sc["text"]
-            for ch in sc.get("changes", []): srv.change(sc["uri"], [ch]); cur = lspmodel.apply_change(cur, ch)
+            for batch in sc.get("changes", []): srv.change(sc["uri"], batch); cur = lspmodel.apply_changes(cur, batch)
             if sc.get("method") and sc.get("params"):
                 m = srv.request(sc["method"], sc["params"]); part.ev()
                 if "error" in m: part.fail("error response %r" % (m["error"],), sc)
